@@ -333,6 +333,7 @@ impl Tally<'_> {
         self.rep.eval();
         self.rep.count("mutants_evaluated", 1);
         self.rep.count(&format!("surface:{surface}"), 1);
+        self.rep.count(&format!("op:{family}"), 1);
         self.rep.observe("operators", family);
         self.rep.nontrivial(format!("{}|{}|{surface}|{w_idx}|{k}|{label}", self.case, self.part).as_bytes());
         let replay = json!({"seed": self.args.seed, "case": self.case, "part": self.part, "surface": surface,
@@ -412,6 +413,7 @@ impl Tally<'_> {
         self.rep.eval();
         self.rep.count("mutants_evaluated", 1);
         self.rep.count(&format!("surface:{surface}"), 1);
+        self.rep.count(&format!("op:{family}"), 1);
         self.rep.observe("operators", family);
         self.rep.nontrivial(format!("{}|{}|{surface}|{w_idx}|{k}|{label}", self.case, self.part).as_bytes());
         match verdict {
@@ -806,6 +808,26 @@ fn store_level(t: &mut Tally<'_>, world: &World, wi: usize, w: WorldlineId) {
     ts.len_override = Some(n + 1);
     let o = world.probe_store(&ts, w, k, None);
     t.record("tamper-store:seek", "store.len+1", "len+1", wi, k, o);
+    // authentic local-commit entry pushed through the recorded-event API and
+    // a recorded-event-shaped entry through the local-commit API
+    if n > 0 {
+        let list = world.entries(w);
+        let last = list[n as usize - 1].clone();
+        let o = guarded(|| {
+            let mut svc = match world.rebuild(w, &list[..n as usize - 1]) {
+                Ok(s) => s,
+                Err(e) => return Outcome::Typed(format!("HARNESS:{e}")),
+            };
+            match svc.append_recorded_event(last.clone()) {
+                Err(e) => Outcome::Typed(format!("append_recorded_event:{}", err_name(&format!("{e:?}")))),
+                Ok(()) => match svc.replay_worldline_state_at(w, world.base(w), wt(n)) {
+                    Ok(st) => compare(&st, n, &world.orig[&w]),
+                    Err(e) => Outcome::Typed(format!("replay:{}", err_name(&format!("{e:?}")))),
+                },
+            }
+        });
+        t.record("rebuild+replay_at", "api.local-entry-via-append_recorded_event", "authentic local commit appended through append_recorded_event", wi, n - 1, o);
+    }
     // altered replay base (U0 graph): registered initial boundary must reject it
     let base = world.base(w);
     let forged = crate::workload::initial_state(
